@@ -26,6 +26,7 @@ func runC05(c *Check) {
 	c05BlockWait(c, "C05", r)
 	c05AckedByAll(c, "C05", r)
 	c05NoLockAcrossWait(c, "C05", r)
+	c07TeardownOrder(c, "C05.O5", r)
 }
 
 func c05OneInFlight(c *Check, P string, r *GCRoles) {
@@ -262,10 +263,10 @@ func c05AckedByAll(c *Check, P string, r *GCRoles) {
 
 func c05NoLockAcrossWait(c *Check, P string, r *GCRoles) {
 	W := r.Wait
-	for _, si := range Selects(W) {
+	for i, si := range Selects(W) {
 		held := r.LA.Held(si.Sel)
 		_, has := held[r.idSubs]
-		c.Report(!has, P+".O4", "NO-LOCK-ACROSS-WAIT", W, si.Sel.Pos(), "wait for subscriber acks",
+		c.Report(!has, P+".O4", "NO-LOCK-ACROSS-WAIT", W, si.Sel.Pos(), fmt.Sprintf("blocking-publish wait helper: select#%d waiting for subscriber acks", i),
 			"the wait for subscribers' acks must not happen while the subscribers lock is held (a subscriber that publishes to another topic while a Subscribe is pending deadlocks on RWMutex writer preference)", "held: "+held.String())
 	}
 }
